@@ -226,6 +226,88 @@ def _spread_comprehension(value, n):
     return out
 
 
+def _normalise_self_aliases(tree):
+    """``name = self.attr = X``  ->  ``self.attr = X; name = self.attr``; and a local name that is bound ONCE, to ``self.attr``, outside every loop,
+    after the function itself has bound ``self.attr``, while no later statement of the function - and no other method of the class except __init__ - binds ``self.attr`` again, is another spelling
+    of ``self.attr``: its reads are replaced and the binding dropped (``lst = self.results = []; lst.append(x)`` is ``self.results.append(x)``)."""
+    import copy
+
+    def self_attr(e):
+        return isinstance(e, ast.Attribute) and isinstance(e.value, ast.Name) and e.value.id == "self"
+
+    def stores_of(fn):
+        out = {}
+        for n in ast.walk(fn):
+            if self_attr(n) and isinstance(n.ctx, (ast.Store, ast.Del)):
+                out.setdefault(n.attr, []).append(n)
+        return out
+
+    for cls in [c for c in ast.walk(tree) if isinstance(c, ast.ClassDef)]:
+        methods = [m for m in cls.body if isinstance(m, ast.FunctionDef)]
+        for fn in methods:
+            if not (fn.args.args and fn.args.args[0].arg == "self"):
+                continue
+            # chained assignment with one self attribute and plain names
+            for holder in ast.walk(fn):
+                for field in ("body", "orelse", "finalbody"):
+                    blk = getattr(holder, field, None)
+                    if not (isinstance(blk, list) and blk and isinstance(blk[0], ast.stmt)):
+                        continue
+                    out = []
+                    for st in blk:
+                        if isinstance(st, ast.Assign) and len(st.targets) >= 2 and sum(1 for t in st.targets if self_attr(t)) == 1 \
+                                and all(self_attr(t) or isinstance(t, ast.Name) for t in st.targets):
+                            attr = next(t for t in st.targets if self_attr(t))
+                            first = ast.Assign(targets=[attr], value=st.value)
+                            ast.copy_location(first, st)
+                            out.append(first)
+                            for t in st.targets:
+                                if isinstance(t, ast.Name):
+                                    ld = copy.deepcopy(attr)
+                                    ld.ctx = ast.Load()
+                                    a2 = ast.Assign(targets=[t], value=ld)
+                                    ast.copy_location(a2, st)
+                                    ast.fix_missing_locations(a2)
+                                    out.append(a2)
+                        else:
+                            out.append(st)
+                    setattr(holder, field, out)
+            own = stores_of(fn)
+            others = {}
+            for m in methods:
+                if m is not fn and m.name != "__init__":
+                    for a_, ns in stores_of(m).items():
+                        others.setdefault(a_, []).extend(ns)
+            params = {a.arg for a in fn.args.args + fn.args.kwonlyargs + fn.args.posonlyargs} | ({fn.args.vararg.arg} if fn.args.vararg else set()) | ({fn.args.kwarg.arg} if fn.args.kwarg else set())
+            nested = {n.id for d in ast.walk(fn) if isinstance(d, (ast.FunctionDef, ast.Lambda, ast.ListComp, ast.SetComp, ast.DictComp, ast.GeneratorExp)) and d is not fn
+                      for n in ast.walk(d) if isinstance(n, ast.Name)}
+            for k, st in enumerate(list(fn.body)):
+                if not (isinstance(st, ast.Assign) and len(st.targets) == 1 and isinstance(st.targets[0], ast.Name) and self_attr(st.value)):
+                    continue
+                name, attr = st.targets[0].id, st.value.attr
+                if name in params or name in nested or others.get(attr):
+                    continue
+                binds = [n for n in ast.walk(fn) if isinstance(n, ast.Name) and n.id == name and isinstance(n.ctx, (ast.Store, ast.Del))]
+                if len(binds) != 1:
+                    continue
+                if any(n.lineno > st.lineno or (n.lineno == st.lineno and n.col_offset > st.col_offset) for n in own.get(attr, [])):
+                    continue
+                if not own.get(attr):
+                    continue    # only an attribute this function has bound itself (the fresh object of `name = self.attr = []`); an alias of older state stays a name
+                if any(isinstance(n, (ast.Global, ast.Nonlocal)) for n in ast.walk(fn)):
+                    continue
+
+                class _R(ast.NodeTransformer):
+                    def visit_Name(self, node):
+                        if node.id == name and isinstance(node.ctx, ast.Load):
+                            new = copy.deepcopy(st.value)
+                            return ast.copy_location(new, node)
+                        return node
+                fn.body = [_R().visit(x) for x in fn.body if x is not st]
+                ast.fix_missing_locations(fn)
+    return tree
+
+
 def _normalise_blocks(tree):
     """Spelling normalisations applied to every module before analysis (positions of the original nodes are kept):
       * ``a, b = X, Y`` with plain-name targets and Y not reading a  ->  ``a = X; b = Y`` (also ``self.a, self.b = x, y`` of plain names);
@@ -233,6 +315,7 @@ def _normalise_blocks(tree):
       * in a loop body ``if c: continue`` followed by REST  ->  ``if not c: REST``.
     Rules then meet one statement shape for each of these equivalent spellings."""
     _normalise_walrus_in_comprehensions(tree)
+    _normalise_self_aliases(tree)
     changed = True
     rounds = 0
     while changed and rounds < 20:
